@@ -53,8 +53,16 @@ static Verdict runT(const T &t) {
     int32_t want_tl = lf.type == pq::FIXED_LEN_BYTE_ARRAY ? lf.type_length : 0;
     PBT_CHECK(vd, carquet_schema_node_type_length(n) == want_tl, "leaf %zu type length %d, file states %d", leaf, carquet_schema_node_type_length(n), want_tl);
     const carquet_logical_type_t *lt = carquet_schema_node_logical_type(n);
-    if (lf.lt.kind == 1) PBT_CHECK(vd, lt && lt->id == CARQUET_LOGICAL_STRING, "leaf %zu logical type not STRING as the file states", leaf);
-    else PBT_CHECK(vd, lt == nullptr, "leaf %zu reports a logical type the file does not state", leaf);
+    if (lf.lt.kind == 0) PBT_CHECK(vd, lt == nullptr, "leaf %zu reports a logical type the file does not state", leaf);
+    else {
+      // union field id of parquet.thrift's LogicalType -> carquet's enumerator (the union has no member 9)
+      static const int want_id[16] = {0, CARQUET_LOGICAL_STRING, CARQUET_LOGICAL_MAP, CARQUET_LOGICAL_LIST, CARQUET_LOGICAL_ENUM, CARQUET_LOGICAL_DECIMAL, CARQUET_LOGICAL_DATE, CARQUET_LOGICAL_TIME, CARQUET_LOGICAL_TIMESTAMP, -1,
+                                      CARQUET_LOGICAL_INTEGER, CARQUET_LOGICAL_NULL, CARQUET_LOGICAL_JSON, CARQUET_LOGICAL_BSON, CARQUET_LOGICAL_UUID, CARQUET_LOGICAL_FLOAT16};
+      PBT_CHECK(vd, lt != nullptr, "leaf %zu: the file states a logical type (union member %d), the node reports none", leaf, lf.lt.kind);
+      PBT_CHECK(vd, (int)lt->id == want_id[lf.lt.kind], "leaf %zu: the file states logical type union member %d, the node reports id %d (expected %d)", leaf, lf.lt.kind, (int)lt->id, want_id[lf.lt.kind]);
+      if (lf.lt.kind == 5) PBT_CHECK(vd, lt->params.decimal.scale == lf.lt.scale && lt->params.decimal.precision == lf.lt.precision, "leaf %zu DECIMAL(%d,%d) reported as (%d,%d)", leaf, lf.lt.precision, lf.lt.scale, lt->params.decimal.precision, lt->params.decimal.scale);
+      if (lf.lt.kind == 10) PBT_CHECK(vd, lt->params.integer.bit_width == lf.lt.bit_width && lt->params.integer.is_signed == lf.lt.is_signed, "leaf %zu INTEGER(%d) reported with bit width %d", leaf, lf.lt.bit_width, (int)lt->params.integer.bit_width);
+    }
     PBT_CHECK(vd, carquet_schema_node_max_def_level(n) == lf.max_def, "leaf %zu ('%s') max definition level %d, %d optional/repeated nodes on its path", leaf, lf.path.back().c_str(), carquet_schema_node_max_def_level(n), lf.max_def);
     PBT_CHECK(vd, carquet_schema_node_max_rep_level(n) == lf.max_rep, "leaf %zu ('%s') max repetition level %d, %d repeated nodes on its path", leaf, lf.path.back().c_str(), carquet_schema_node_max_rep_level(n), lf.max_rep);
     if (name_count[lf.path.back()] == 1) PBT_CHECK(vd, carquet_schema_find_column(s, lf.path.back().c_str()) == (int32_t)leaf, "find_column('%s') = %d, leaf index is %zu", lf.path.back().c_str(), carquet_schema_find_column(s, lf.path.back().c_str()), leaf);
@@ -102,7 +110,7 @@ static Verdict runT(const T &t) {
 }
 
 static rc::Gen<T> genT() {
-  gf::Opts o; o.nested = true; o.max_cols = 6; o.max_rows = 6; o.max_rgs = 1; o.dicts = false; o.codecs = false; o.stats = false; o.thrift_extras = false; o.layouts = false; o.crc = false; o.max_pages = 1;
+  gf::Opts o; o.logical_types = true; o.nested = true; o.max_cols = 6; o.max_rows = 6; o.max_rgs = 1; o.dicts = false; o.codecs = false; o.stats = false; o.thrift_extras = false; o.layouts = false; o.crc = false; o.max_pages = 1;
   return rc::gen::map(rc::gen::pair(gf::specGen(o), irange(0, 2)), [](const std::pair<pw::FileSpec, int> &p) { T t; t.fs = p.first; t.mode = p.second; return t; });
 }
 // deep / wide random trees
